@@ -125,6 +125,10 @@ def ballots_as_present(profile):
     return out
 
 
+def ballots_as_present_tuple(ballots):
+    return [([sorted(p) for p in b.ranking] if b.ranking else [], b.weight) for b in ballots]
+
+
 def img(shape, removed):
     """spec image of a ranking when candidates are struck: order and grouping preserved"""
     out = []
